@@ -12,4 +12,5 @@ Extraction "../ocaml/dpe.ml"
   rdpe_lt rdpe_le rdpe_gt rdpe_ge rdpe_lt_old rdpe_le_old rdpe_gt_old rdpe_ge_old
   cdpe_smod cdpe_mod cdpe_add cdpe_sub cdpe_mul cdpe_inv cdpe_sqr cdpe_sqr_eq cdpe_div cdpe_pow_si
   cdpe_mul_old cdpe_inv_old cdpe_sqr_old cdpe_sqr_eq_old cdpe_div_old cdpe_pow_si_old
+  rdpe_add_d rdpe_sub_d rdpe_add_eq_d rdpe_sub_eq_d cdpe_neg cdpe_con cdpe_rot cdpe_flip cdpe_add_eq cdpe_sub_eq cdpe_set_2dl cdpe_mul_x cdpe_div_eq cdpe_div_eq_old cdpe_eq_zero cdpe_eq cdpe_ne
   cdpe_mul_e cdpe_div_e cdpe_mul_d cdpe_div_d cdpe_set_d cdpe_get_d cdpe_get_d_old.
